@@ -1,3 +1,101 @@
-import Mwp.Model.Choices
+/-
+  C04 — The choice representation is the exact complement of the failing choices.
+  Property theorems only; the work is in Mwp/Lemmas/ChoicesSimplify*.lean (each
+  simplification rewrite preserves the avoiding set) and Mwp/Lemmas/ChoicesBuild*.lean
+  (the boxes cover exactly the avoiding set; observers).
+-/
+import Mwp.Lemmas.ChoicesSimplify
+import Mwp.Lemmas.ChoicesBuild
 namespace Mwp.Props.C04
+open Mwp Mwp.Choices
+
+/-- a vector in a box of the right shape is a vector of the right shape -/
+theorem vecOK_of_inBox (domain : List Nat) (n : Nat) (w : Vect) (v : List Nat)
+    (hw : w.length = n ∧ ∀ e ∈ w, e ≠ [] ∧ ∀ x ∈ e, x ∈ domain) (hb : InBox w v) :
+    VecOK domain n v := by
+  refine ⟨hb.1.trans hw.1, ?_⟩
+  intro x hx
+  obtain ⟨i, hi, rfl⟩ := List.getElem_of_mem hx
+  have hi' : i < w.length := hb.1 ▸ hi
+  exact (hw.2 _ (List.getElem_mem hi')).2 _ (hb.2 i hi hi')
+
+/-- For every domain, vector length and set of well-formed delta sequences to avoid, `generate`
+    succeeds and the object it returns accepts a vector — by membership test, by enumeration and
+    as its first choice — iff the vector matches none of the sequences; it is infinite exactly
+    when no such vector exists. -/
+theorem generate_exact (domain : List Nat) (n : Nat) (inf : List Seq)
+    (hd : domain.Nodup) (hne : domain ≠ [])
+    (hwf : ∀ s ∈ inf, WFSeq domain n s) :
+    ∃ c, generate domain n inf = .ok c ∧
+      (∀ v, VecOK domain n v → (isValid c v = true ↔ Avoids inf v)) ∧
+      (∀ v, v ∈ all c ↔ (VecOK domain n v ∧ Avoids inf v)) ∧
+      (infinite c = true ↔ ¬ ∃ v, VecOK domain n v ∧ Avoids inf v) ∧
+      (infinite c = false → ∃ f, first c = .ok (some f) ∧ VecOK domain n f ∧ Avoids inf f) := by
+  obtain ⟨s', hs, hswf, hseq⟩ := simplify_ok domain n inf hd hne hwf
+  obtain ⟨vs, hb, hshape, hcover⟩ := buildChoices_ok domain n s' hd hne hswf
+  have hgen : generate domain n inf = .ok (mk vs n) := by
+    unfold generate
+    rw [hs]
+    show (do let v ← buildChoices domain n s'; pure (mk v (n : Int))) = _
+    rw [hb]
+    rfl
+  have hmk : mk vs (n : Int) = ⟨vs, n⟩ := by
+    unfold mk
+    have : ¬ ((n : Int) < 0) := by omega
+    simp [this]
+  refine ⟨mk vs n, hgen, ?_, ?_, ?_, ?_⟩
+  · intro v hv
+    rw [hmk, isValid_iff ⟨vs, n⟩ n v hv.1 (fun w hw => (hshape w hw).1)]
+    exact (hcover v hv).trans (hseq v hv)
+  · intro v
+    rw [hmk, mem_all_iff]
+    constructor
+    · rintro ⟨w, hw, hbx⟩
+      have hv := vecOK_of_inBox domain n w v (hshape w hw) hbx
+      exact ⟨hv, (hseq v hv).1 ((hcover v hv).1 ⟨w, hw, hbx⟩)⟩
+    · rintro ⟨hv, ha⟩
+      exact (hcover v hv).2 ((hseq v hv).2 ha)
+  · rw [hmk, infinite_iff ⟨vs, n⟩ n rfl]
+    constructor
+    · intro he
+      rintro ⟨v, hv, ha⟩
+      obtain ⟨w, hw, _⟩ := (hcover v hv).2 ((hseq v hv).2 ha)
+      simp only at he
+      rw [he] at hw
+      cases hw
+    · intro hno
+      show vs = []
+      cases hvs : vs with
+      | nil => rfl
+      | cons w ws =>
+        exfalso
+        have hinf : infinite (⟨vs, n⟩ : T) = false := by
+          simp [infinite, hvs]
+        obtain ⟨f, _, w', hw', hbx⟩ := first_ok ⟨vs, n⟩ n
+          (fun w hw => ⟨(hshape w hw).1, fun e he => ((hshape w hw).2 e he).1⟩) hinf rfl
+        have hv := vecOK_of_inBox domain n w' f (hshape w' hw') hbx
+        exact hno ⟨f, hv, (hseq f hv).1 ((hcover f hv).1 ⟨w', hw', hbx⟩)⟩
+  · intro hinf
+    rw [hmk] at hinf ⊢
+    obtain ⟨f, hf, w', hw', hbx⟩ := first_ok ⟨vs, n⟩ n
+      (fun w hw => ⟨(hshape w hw).1, fun e he => ((hshape w hw).2 e he).1⟩) hinf rfl
+    have hv := vecOK_of_inBox domain n w' f (hshape w' hw') hbx
+    exact ⟨f, hf, hv, (hseq f hv).1 ((hcover f hv).1 ⟨w', hw', hbx⟩)⟩
+
+/-- Intersecting two choice objects accepts exactly the vectors both accept. -/
+theorem intersection_exact (c1 c2 : T) (n : Nat) (v : List Nat) (hv : v.length = n)
+    (h1 : ∀ w ∈ c1.valid, w.length = n) (h2 : ∀ w ∈ c2.valid, w.length = n) :
+    isValid (intersection c1 c2) v = (isValid c1 v && isValid c2 v) :=
+  Mwp.Choices.intersection_exact' c1 c2 n v hv h1 h2
+
+-- non-vacuity: a non-trivial instance satisfies the hypotheses and has avoiding vectors
+example : ∀ s ∈ ([[(0,0)], [(1,0)], [(1,1),(0,2)]] : List Seq), WFSeq [0,1,2] 3 s := by
+  intro s hs
+  simp only [List.mem_cons, List.mem_nil_iff, or_false] at hs
+  rcases hs with rfl | rfl | rfl <;> exact ⟨by decide, by decide⟩
+example : (generate [0,1,2] 3 [[(0,0)], [(1,0)], [(1,1),(0,2)]]).toOption.map (fun c => isValid c [2,0,0])
+    = some true := by decide
+example : (generate [0,1,2] 3 [[(0,0)], [(1,0)], [(1,1),(0,2)]]).toOption.map (fun c => isValid c [2,1,0])
+    = some false := by decide
+
 end Mwp.Props.C04
